@@ -324,6 +324,16 @@ fn build(tier: Tier) -> Vec<Scenario> {
             }
         }
     }
+    // one side thousands of elements ahead of the other (the whole left input, then the whole
+    // right one, and the other way round via the select's default answers), more than any
+    // internal stash size
+    for (a, b) in [(2000usize, 1500usize), (1500, 2000)] {
+        let mut s = zip_timestamped(a, b, 0);
+        s.params.free_kinds = vec![crate::rt::Kind::Driver];
+        s.params.channel_capacity = 10_000;
+        s.descr = format!("zip of {a} left and {b} right timestamped elements, a watermark after every element, default answers of the select (one side runs far ahead)");
+        out.push(s);
+    }
     if tier == Tier::Quick {
         crate::props::common::deepen(&mut out, &|n| n.contains("/p2/") && n.contains("/n2/"));
     }
@@ -358,7 +368,12 @@ pub fn zip_timestamped(a: usize, b: usize, off: i64) -> Scenario {
         if pairs != exp {
             return Some(Fail::new(
                 if pairs.len() != exp.len() { "c09-zip-count" } else { "c09-zip-not-positional" },
-                format!("{descr}: pairs {:?}, expected {:?}", pairs, exp),
+                if exp.len() > 20 {
+                    let first = pairs.iter().zip(exp.iter()).position(|(x, y)| x != y);
+                    format!("{descr}: {} pairs, expected {}; the first difference is at position {:?}", pairs.len(), exp.len(), first)
+                } else {
+                    format!("{descr}: pairs {:?}, expected {:?}", pairs, exp)
+                },
             ));
         }
         if let Some((sig, msg)) = watermark_safety(&shape(&out)) {
